@@ -50,7 +50,7 @@ func init() {
 		Level:     "exploration",
 		Technique: "differential runtime monitor: remote.NewReadHandler over HTTP + remote.NewReadClient/NewSampleAndChunkQueryableClient vs. the local tsdb Querier on the same DB",
 		LevelText: "Per case a real tsdb.DB is filled with 2-8 generated series (floats incl. NaN payloads/stale markers, integer, float and custom-bucket native histograms, mixed series; small SamplesPerChunk so every series has many chunks) spread over one persisted block and the head. 6 (quick) / 10 (thorough) generated queries (1-3 matchers of all four types, time ranges cutting through chunks, point ranges, empty ranges, the all-time range, optional select hints) are answered (a) by the local Querier and (b) through remote.NewReadHandler behind an httptest server, read by remote.NewReadClient wrapped in NewSampleAndChunkQueryableClient (Querier and ChunkQuerier side), with response type SAMPLES or STREAMED_XOR_CHUNKS, maxBytesInFrame 64 B..1 MiB, server external labels, client external labels (equal, differing, extra), user matchers on external labels (equality only) and required matchers. Oracle: the remote series set must be exactly the local one (label sets = stored labels + server external labels where absent, minus the client-added external labels), every series with exactly the local samples in [mint,maxt] (timestamps, bitwise float values, canonical histogram keys, gauge flag); Seek(t)+drain on a fresh iterator must give the samples with timestamp >= t. Held on the observed queries only.",
-		LevelNote: "Trusted: the local tsdb Querier as the reference for the stored data (its own correctness is C01/C16). Reductions: external-label semantics are only exercised where they are unambiguous (stored series never carry the external label names except one collision class without matchers on that name; matchers on external label names are equalities only); required matchers that are not all present make the expected result empty (documented semantics); series order is not compared; counter-reset hints other than the gauge flag are not compared (positional by design, C12); read_recent=false / ReadMultiple / sample limit are not driven. A series that the streamed path hands out as several consecutive entries with the same label set is compared by the concatenation of the entries and reported under its own kind.",
+		LevelNote: "Trusted: the local tsdb Querier as the reference for the stored data (its own correctness is C01/C16). Reductions: external-label semantics are only exercised where they are unambiguous (stored series never carry the external label names except one collision class without matchers on that name; matchers on external label names are equalities only); required matchers that are not all present make the expected result empty (documented semantics); series order is not compared; counter-reset hints other than the gauge flag are not compared (positional by design, C12); read_recent=false / ReadMultiple / sample limit are not driven. Two mechanisms fire on the unchanged tree and are reported under their own narrow kinds (FINDINGS.txt): a series that the streamed path hands out as several consecutive entries with the same label set (compared by the concatenation of the entries), and float samples stored as -0 that the SAMPLES response returns as +0 (all other values bitwise).",
 		DesignRef: "DESIGN.md §5 C42",
 		Rule:      "case = one generated DB + 6/10 queries with generated client/server configuration; a query is non-trivial iff the local result holds at least one sample and the remote answer was compared with it; distinct by (case, query index, query rendering)",
 		Cases: func(variant string, tier core.Tier) int {
